@@ -7,6 +7,10 @@ BASE = json.load(open("/root/.vp/BASELINE.json"))["cmd"] if Path("/root/.vp/BASE
     "cd /repo && /venv/bin/python -m pytest -ra -q -p no:cacheprovider --timeout=900 --continue-on-collection-errors --junitxml=<file>"
 
 CHECKS = {
+ "C07": dict(cat="exploration", ref="§C07, §1.1",
+    tech="property-based testing (Hypothesis) over generated source sets with a hostile name alphabet (XML Schemas from the SchemaSpec generator, irregular XML samples, irregular JSON samples) x the whole output-option space; oracles = outcome classification (success or the generator's own CodegenError), import of every generated module, XmlContext.build + instantiation of every generated class, AST scan of the generated source for names bound twice",
+    text="Generated search: per case one source set and one point of the option space (structure style, compound fields incl. forced default name, wrapper fields, unnest, frozen/slots/eq/order/kw_only/unsafe_hash/repr, docstring style, naming case and safe prefix per name kind, relative imports, generic collections, line length, header). Generation must end in success or CodegenError; every module must import; every dataclass must yield binding metadata and accept construction; no class body may bind a field twice and no module or class body a class twice. Searched, not proved.",
+    note="Stand-ins for click/jinja2/toposort, no ruff. DTD and WSDL sources are exercised by C16/C17 only with plain names. Class-name schemes stay upper-case and field-name schemes lower-case (with one scheme for both a field and its inner class share a name by configuration); safe prefixes are letters. Regions of the 11 recorded findings (known_findings.json) are excluded by construction: `type` and letter-less names, empty / __class__ JSON keys, <Name>Type named types, XML samples with mixed content, case-colliding names or one local name in two namespaces, multi-sample / multi-namespace sets under non-cluster styles."),
  "C02": dict(cat="exploration", ref="§C02, §1.1",
     tech="property-based testing (Hypothesis) over generated XML Schemas: a SchemaSpec generator renders the XSD and builds instance documents valid by construction; oracles = libxml2 XSD validation of schema, inputs and (in the order-preserving fragment) outputs, a typed default-augmented infoset comparison of serialize(parse(doc)) with doc, and a metamorphic comparison between two generator configurations that differ only in output-only options",
     text="Generated search: per case one schema (namespaces and forms, named/anonymous complex types, nested sequence/choice/all particles with occurrence ranges, simple types by restriction/list/union/enumeration, attributes with use/default/fixed, wildcards, extension with xsi:type and abstract bases, nillable, mixed, simple content, recursion), 1-3 documents, two generator configurations. Generation must succeed, the package import, every document parse under the strictest settings, the typed unordered infoset survive the round trip, the ordered infoset and schema validity survive it in the order-preserving fragment, and both configurations agree. Searched, not proved.",
